@@ -173,7 +173,8 @@ class Rope(AnySymbolicStr, CrossHairValue):
         return self
 
     def __repr__(self):
-        return repr(self._materialise())
+        # repr() is mostly reached from C code (repr of a dict / list that holds the rope), which insists on a real str
+        return repr(self.__ch_realize__())
 
     def __add__(self, o):
         with NoTracing():
@@ -212,6 +213,41 @@ class Rope(AnySymbolicStr, CrossHairValue):
             if not any(isinstance(p, Sym) for p in self._parts):
                 return Rope([p.lower() if isinstance(p, str) else p for p in self._parts])
         return self._materialise().lower()
+
+    def _strip(self, left, right, chars):
+        with NoTracing():
+            if chars is None and self._parts and not any(isinstance(p, Sym) for p in self._parts):
+                parts = list(self._parts)
+                if left and isinstance(parts[0], str):
+                    parts[0] = parts[0].lstrip()
+                if right and isinstance(parts[-1], str):
+                    parts[-1] = parts[-1].rstrip()
+                # decimal text has no white space, so only literal ends can be stripped; an end that became
+                # empty exposes the next part, which is an Int (delimited) or needs another look
+                ok = True
+                norm = _norm(parts)
+                if norm:
+                    if left and isinstance(norm[0], str) and norm[0][:1].isspace():
+                        ok = False
+                    if right and isinstance(norm[-1], str) and norm[-1][-1:].isspace():
+                        ok = False
+                if ok:
+                    if all(isinstance(q, str) for q in norm):
+                        return ''.join(norm)
+                    return Rope(norm)
+        m = self._materialise()
+        if left and right:
+            return m.strip(chars)
+        return m.lstrip(chars) if left else m.rstrip(chars)
+
+    def strip(self, chars=None):
+        return self._strip(True, True, chars)
+
+    def lstrip(self, chars=None):
+        return self._strip(True, False, chars)
+
+    def rstrip(self, chars=None):
+        return self._strip(False, True, chars)
 
     def __contains__(self, needle):
         with NoTracing():
